@@ -5,6 +5,16 @@
 // references, duplicates included) x a second statement with another scope that
 // lists the other stores x scheme x format x chain shape. Real on-disk trust
 // store behind a logging decorator; set-membership oracle + call-log clauses.
+//
+// Two further dimensions (third round of seeded defects):
+//   - store NAMES: the two names of every type are also drawn from a hand-labelled list of near-miss pairs (trailing
+//     dot, letter case, extension, leading dot, dash/underscore, dotted suffix, inner dot, leading zero, long common
+//     prefix, trailing dash). All are valid names and pairwise different, so a store listed under one name must
+//     never be served from the store of the other name. The oracle is unchanged: it works on store indices.
+//   - OPTIONS that touch the authenticity result after it was computed: how the statement sets the authenticity
+//     action (enforced / logged) x a verification plugin named by the signature (none, trusted-identity success,
+//     trusted-identity failure, revocation success, both). "Passes only if anchored" is judged in every cell; the
+//     converse is judged only without a plugin (as before) and is a counted positive control with one.
 package main
 
 import (
@@ -14,6 +24,7 @@ import (
 	"os"
 	"path/filepath"
 	"strings"
+	"sync/atomic"
 	"time"
 
 	"github.com/notaryproject/notation-go"
@@ -27,10 +38,95 @@ import (
 	"github.com/notaryproject/notation-go/zzverif/lib/pki"
 	"github.com/notaryproject/notation-go/zzverif/lib/vt"
 	"github.com/opencontainers/go-digest"
+	fw "github.com/notaryproject/notation-plugin-framework-go/plugin"
 	ocispec "github.com/opencontainers/image-spec/specs-go/v1"
 )
 
 var storeRefs = []string{"ca:s1", "ca:s2", "signingAuthority:s1", "signingAuthority:s2", "tsa:s1", "tsa:s2"}
+
+var storeTypes = []string{"ca", "ca", "signingAuthority", "signingAuthority", "tsa", "tsa"}
+
+var longName = strings.Repeat("a", 64)
+
+// namePairs: the two store names used under every type. Index 0 is the plain pair; the others are near misses,
+// hand-labelled: every name matches [a-zA-Z0-9_.-]+ (valid for the policy and for the trust store) and the two names
+// of a pair are different names, hence different stores.
+var namePairs = []struct{ A, B, Label string }{
+	{"s1", "s2", "plain"},
+	{"s1", "s1.", "trailing-dot"},
+	{"s1", "S1", "letter-case"},
+	{"s1", "s10", "extension"},
+	{"s1", ".s1", "leading-dot"},
+	{"s-1", "s_1", "dash-underscore"},
+	{"s1", "s1.d", "dotted-suffix"},
+	{"s1", "s.1", "inner-dot"},
+	{"1", "01", "leading-zero"},
+	{longName + "x", longName + "y", "long-common-prefix"},
+	{"s1", "s1-", "trailing-dash"},
+}
+
+// refsOf returns the six store references (type:name) of a name pair, in the order of storeRefs.
+func refsOf(names int) []string {
+	if names == 0 {
+		return storeRefs
+	}
+	np := namePairs[names]
+	out := make([]string, len(storeTypes))
+	for i, t := range storeTypes {
+		out[i] = t + ":" + []string{np.A, np.B}[i%2]
+	}
+	return out
+}
+
+// levels: how the applicable statement sets the actions. Authenticity is enforced in 0 and 2 and logged in 1;
+// revocation is skipped in 0 and live in 1 and 2 (so that a plugin with the revocation capability is executed).
+var levelNames = []string{"authenticity-enforced", "authenticity-logged", "authenticity-enforced+revocation-live"}
+
+func levelSV(level int) trustpolicy.SignatureVerification {
+	switch level {
+	case 1:
+		return trustpolicy.SignatureVerification{VerificationLevel: "audit"}
+	case 2:
+		return trustpolicy.SignatureVerification{VerificationLevel: "strict", Override: map[trustpolicy.ValidationType]trustpolicy.ValidationAction{
+			trustpolicy.TypeAuthenticTimestamp: trustpolicy.ActionLog, trustpolicy.TypeExpiry: trustpolicy.ActionLog, trustpolicy.TypeRevocation: trustpolicy.ActionLog}}
+	}
+	// only authenticity is enforced, so the overall verdict follows the authenticity validation alone
+	// (a listed tsa store switches timestamp verification on, which fails for lack of a countersignature: logged)
+	return trustpolicy.SignatureVerification{VerificationLevel: "strict", Override: map[trustpolicy.ValidationType]trustpolicy.ValidationAction{
+		trustpolicy.TypeAuthenticTimestamp: trustpolicy.ActionLog, trustpolicy.TypeExpiry: trustpolicy.ActionLog, trustpolicy.TypeRevocation: trustpolicy.ActionSkip}}
+}
+
+// plugin kinds: the signature names verification plugin "p" (critical extended attribute) and the manager has it
+// installed with these verification capabilities and this verdict.
+const (
+	plNone = iota
+	plIdentityOK
+	plIdentityFail
+	plRevocationOK
+	plBothOK
+	nPlugins
+)
+
+var pluginNames = []string{"none", "identity-success", "identity-failure", "revocation-success", "identity+revocation-success"}
+
+func pluginOf(kind int) *mocks.VerifyPlugin {
+	p := &mocks.VerifyPlugin{Name: "p", Version: "1.0.0", ProcessAll: true, Verdicts: map[fw.Capability]string{}}
+	switch kind {
+	case plIdentityOK:
+		p.Capabilities = []fw.Capability{fw.CapabilityTrustedIdentityVerifier}
+	case plIdentityFail:
+		p.Capabilities = []fw.Capability{fw.CapabilityTrustedIdentityVerifier}
+		p.Verdicts[fw.CapabilityTrustedIdentityVerifier] = "failure"
+	case plRevocationOK:
+		p.Capabilities = []fw.Capability{fw.CapabilityRevocationCheckVerifier}
+	case plBothOK:
+		p.Capabilities = []fw.Capability{fw.CapabilityTrustedIdentityVerifier, fw.CapabilityRevocationCheckVerifier}
+	}
+	return p
+}
+
+// positive controls of the plugin dimension (the converse of the statement is not judged there)
+var pluginControls, pluginControlsHeld, pluginExecuted atomic.Int64
 
 // content kinds of a store
 const (
@@ -61,18 +157,23 @@ type caseT struct {
 	// Prior 5 (with Store 1): the same verifier first verified the signature under the OTHER statement
 	// (reference reg.io/team), which lists the complementary stores.
 	Store int `json:"store"`
+	// Names: index into namePairs (0: s1/s2). Level: index into levelNames. Plugin: plugin kind.
+	Names  int `json:"names"`
+	Level  int `json:"level"`
+	Plugin int `json:"plugin"`
 }
 
 func (c caseT) String() string {
+	refs := refsOf(c.Names)
 	var pl []string
 	for i, k := range c.Placement {
 		if k != absent {
-			pl = append(pl, storeRefs[i]+"="+kindNames[k])
+			pl = append(pl, refs[i]+"="+kindNames[k])
 		}
 	}
 	var l []string
 	for _, i := range c.List {
-		l = append(l, storeRefs[i])
+		l = append(l, refs[i])
 	}
 	prior := "fresh verifier"
 	if c.Prior > 0 {
@@ -84,6 +185,9 @@ func (c caseT) String() string {
 	}
 	if c.Store == 1 {
 		prior += ", caller-supplied store answering with sub-slices of one array"
+	}
+	if c.Level != 0 || c.Plugin != 0 {
+		prior += ", " + levelNames[c.Level] + ", verification plugin: " + pluginNames[c.Plugin]
 	}
 	return fmt.Sprintf("stores{%s} list[%s] scheme=%s format=%s shape=%d (%s)", strings.Join(pl, ","), strings.Join(l, ","), []string{"x509", "signingAuthority"}[c.Scheme], []string{"jws", "cose"}[c.Format], c.Shape, prior)
 }
@@ -122,8 +226,9 @@ func (w *world) certsOf(kind, shape int) []*x509.Certificate {
 }
 
 // configDir materialises a placement once; directories are read-only afterwards.
-func (w *world) configDir(pl []int, shape int) string {
-	name := fmt.Sprintf("p%d-%v", shape, pl)
+func (w *world) configDir(pl []int, shape, names int) string {
+	storeRefs := refsOf(names)
+	name := fmt.Sprintf("n%d-p%d-%v", names, shape, pl)
 	name = strings.NewReplacer(" ", "", "[", "", "]", "").Replace(name)
 	d := filepath.Join(w.root, name)
 	if _, err := os.Stat(d); err == nil {
@@ -172,7 +277,8 @@ func (s *sharedArrayStore) GetCertificates(ctx context.Context, t truststore.Typ
 }
 
 func (w *world) run(r *hx.Run, c caseT) {
-	cfg := w.configDir(c.Placement, c.Shape)
+	storeRefs := refsOf(c.Names) // shadows the plain references: everything below works on indices
+	cfg := w.configDir(c.Placement, c.Shape, c.Names)
 	var inner truststore.X509TrustStore = truststore.NewX509TrustStore(dir.NewSysFS(cfg))
 	if c.Store == 1 {
 		sa := &sharedArrayStore{span: map[string][2]int{}}
@@ -195,10 +301,7 @@ func (w *world) run(r *hx.Run, c caseT) {
 			others = append(others, s)
 		}
 	}
-	// only authenticity is enforced, so the overall verdict follows the authenticity validation alone
-	// (a listed tsa store switches timestamp verification on, which fails for lack of a countersignature: logged)
-	onlyAuth := trustpolicy.SignatureVerification{VerificationLevel: "strict", Override: map[trustpolicy.ValidationType]trustpolicy.ValidationAction{
-		trustpolicy.TypeAuthenticTimestamp: trustpolicy.ActionLog, trustpolicy.TypeExpiry: trustpolicy.ActionLog, trustpolicy.TypeRevocation: trustpolicy.ActionSkip}}
+	onlyAuth := levelSV(c.Level)
 	// the artifact lives in reg.io/team/app; the other statement is scoped to the enclosing and to a nested
 	// repository path (never the artifact's own), and is placed before or after the applicable one
 	applicable := trustpolicy.OCITrustPolicy{Name: "applicable", SignatureVerification: onlyAuth, TrustStores: list, TrustedIdentities: []string{"*"}, RegistryScopes: []string{"reg.io/team/app"}}
@@ -213,12 +316,23 @@ func (w *world) run(r *hx.Run, c caseT) {
 		}
 	}
 	ok := mocks.AllOK()
-	v, err := verifier.NewVerifierWithOptions(ls, verifier.VerifierOptions{OCITrustPolicy: doc, RevocationCodeSigningValidator: ok})
+	vopts := verifier.VerifierOptions{OCITrustPolicy: doc, RevocationCodeSigningValidator: ok}
+	var plug *mocks.VerifyPlugin
+	if c.Plugin != plNone {
+		plug = pluginOf(c.Plugin)
+		mgr := mocks.NewManager()
+		mgr.Plugins["p"] = plug
+		vopts.PluginManager = mgr
+	}
+	v, err := verifier.NewVerifierWithOptions(ls, vopts)
 	if err != nil {
 		r.Infra("verifier: %v (%s)", err, c)
 		return
 	}
 	env := w.envs[fmt.Sprintf("%d/%d/%d", c.Shape, c.Scheme, c.Format)]
+	if c.Plugin != plNone {
+		env = w.envs[fmt.Sprintf("%d/%d/%d/plugin", c.Shape, c.Scheme, c.Format)]
+	}
 	if c.Prior == 5 {
 		r.Eval(1)
 		_, _ = v.Verify(ctx, w.desc, env, notation.VerifierVerifyOptions{ArtifactReference: "reg.io/team@" + w.desc.Digest.String(), SignatureMediaType: forge.Formats[c.Format]})
@@ -238,16 +352,31 @@ func (w *world) run(r *hx.Run, c caseT) {
 		if c.Store == 1 {
 			key += ":shared-array-store"
 		}
+		if c.Names != 0 {
+			key += ":near-miss-store-names=" + namePairs[c.Names].Label
+		}
+		if c.Level == 1 {
+			key += ":authenticity-logged"
+		}
+		if c.Plugin != plNone {
+			key += ":plugin=" + pluginNames[c.Plugin]
+		}
 		r.Violation(key, what+" | "+c.String(), c)
 	}
-	if outcome == nil {
+	// Without a plugin the outcome carries exactly one authenticity result (as before). With one, an implementation
+	// may reasonably report the plugin's identity verdict separately or stop before the authenticity validation:
+	// "the authenticity validation passes" then means at least one result and none of them failed.
+	if outcome == nil && c.Plugin == plNone {
 		bad("nil-outcome", fmt.Sprint(verr))
 		return
 	}
 	rs := vt.ResultOf(outcome, trustpolicy.TypeAuthenticity)
 	if len(rs) != 1 {
-		bad("authenticity-result-count", fmt.Sprintf("%d results", len(rs)))
-		return
+		if c.Plugin == plNone {
+			bad("authenticity-result-count", fmt.Sprintf("%d results", len(rs)))
+			return
+		}
+		r.Outcome("recorded:authenticity-result-count-differs-from-one-with-a-plugin")
 	}
 	// ---- reference ----
 	reqType := []string{"ca", "signingAuthority"}[c.Scheme]
@@ -284,7 +413,12 @@ func (w *world) run(r *hx.Run, c caseT) {
 		}
 	}
 	want := len(L) > 0 && allLoad && anchored
-	got := rs[0].Error == nil
+	got := len(rs) > 0
+	for _, x := range rs {
+		if x.Error != nil {
+			got = false
+		}
+	}
 	class := "fails"
 	if want {
 		class = "passes"
@@ -298,17 +432,41 @@ func (w *world) run(r *hx.Run, c caseT) {
 	case !anchored:
 		why = "no-chain-certificate-in-listed-stores"
 	}
+	if plug != nil && len(plug.VerifyCalls) > 0 {
+		pluginExecuted.Add(1)
+	}
+	// Statement: passes ONLY IF anchored in a loadable listed store of the required type - judged in every cell of
+	// level x plugin.
 	if got && !want {
 		bad("authenticity-passed/"+why, "authenticity passed")
 	}
-	if !got && want {
-		bad("authenticity-failed-although-anchored", fmt.Sprintf("authenticity failed: %v", rs[0].Error))
+	// An unanchored signature must be rejected wherever the statement's failing authenticity is enforced.
+	if !want && verr == nil && c.Level != 1 {
+		bad("verification-succeeded/"+why, "authenticity is enforced and must fail")
 	}
-	if want && verr != nil {
-		bad("verification-failed-although-anchored", verr.Error())
-	}
-	if !want && verr == nil {
-		bad("verification-succeeded/"+why, "strict level, authenticity must fail")
+	if c.Plugin == plNone {
+		// verdict clauses as before (nothing but the trust stores decides here)
+		if !got && want {
+			bad("authenticity-failed-although-anchored", fmt.Sprintf("authenticity failed: %v", rs[0].Error))
+		}
+		if want && verr != nil {
+			bad("verification-failed-although-anchored", verr.Error())
+		}
+	} else if want {
+		// with a plugin the converse is a positive control: an anchored signature whose plugin agrees verifies
+		if c.Plugin == plIdentityFail {
+			class = "anchored-but-plugin-rejects-identity"
+			if got {
+				r.Outcome("recorded:authenticity-passed-although-the-plugin-rejects-the-identity")
+			}
+		} else {
+			pluginControls.Add(1)
+			if got && verr == nil {
+				pluginControlsHeld.Add(1)
+			} else {
+				r.Outcome("recorded:anchored-signature-with-agreeing-plugin-did-not-verify")
+			}
+		}
 	}
 	// ---- call log ----
 	var wantSeq []string
@@ -356,10 +514,36 @@ func (w *world) run(r *hx.Run, c caseT) {
 			}
 		}
 	}
+	switch {
+	case c.Level != 0 || c.Plugin != 0:
+		class = "options/" + class
+	case c.Names != 0:
+		class = "near-miss-names/" + class
+	}
 	r.Outcome(class + ":" + why)
 	if len(L) > 0 {
-		r.Nontrivial(fmt.Sprintf("%v|%v|%d|%d|%d", c.Placement, c.List, c.Scheme, c.Format, c.Shape))
+		r.Nontrivial(fmt.Sprintf("%v|%v|%d|%d|%d|%d|%d|%d", c.Placement, c.List, c.Scheme, c.Format, c.Shape, c.Names, c.Level, c.Plugin))
 	}
+}
+
+// placementsOf: every assignment of a content kind to at most maxStores of the six stores.
+func placementsOf(kinds []int, maxStores int) [][]int {
+	var placements [][]int
+	var prec func(i int, cur []int, used int)
+	prec = func(i int, cur []int, used int) {
+		if i == len(storeRefs) {
+			placements = append(placements, append([]int(nil), cur...))
+			return
+		}
+		prec(i+1, append(cur, absent), used)
+		if used < maxStores {
+			for _, k := range kinds {
+				prec(i+1, append(cur, k), used+1)
+			}
+		}
+	}
+	prec(0, nil, 0)
+	return placements
 }
 
 // aliasFamily: a caller-supplied trust store that answers with sub-slices of ONE backing array (every store
@@ -465,7 +649,10 @@ func (w *world) aliasFamily(r *hx.Run) {
 func main() {
 	r := hx.New("C03")
 	r.Rule = "every placement of {root, intermediate, unrelated CA, root+unrelated, leaf} into at most 2 (quick: 1) of the six named stores x every store list of length 1..3 (quick: 1..2) over the six references x scheme x format x chain shape; the other stores are listed by a second statement and a wildcard statement; one real verifier.Verify over the real on-disk trust store per case; non-trivial = cases whose list names at least one store of the required type"
-	r.Assumptions = []string{"trust stores are real directories under a scratch config root read through truststore.NewX509TrustStore (no permission faults: run as root)", "no timestamp path is exercised, so a tsa store must never be loaded"}
+	r.Rule += "; near-miss store names: each of the hand-labelled name pairs (trailing dot, letter case, extension, leading dot, dash/underscore, dotted suffix, inner dot, leading zero, long common prefix, trailing dash) replaces s1/s2 under every type x placements of {root, unrelated, empty directory} into at most 2 stores x every list of length 1 (thorough: 1..2) x scheme x format (quick: JWS) on the 3-certificate chain; options: every cell of {authenticity enforced, logged (audit), enforced with live revocation} x {no plugin, plugin with trusted-identity success / failure, revocation success, both} other than the plain one x placements into at most 1 (thorough: 2) stores x lists of length 1 x scheme x format x chain shape"
+	r.Assumptions = []string{"trust stores are real directories under a scratch config root read through truststore.NewX509TrustStore (no permission faults: run as root)", "no timestamp path is exercised, so a tsa store must never be loaded",
+		"the scratch file system keeps the two names of a near-miss pair apart (probed per pair; a pair it folds is skipped and recorded)",
+		"verification plugins are scripted in-process plugin.Plugin values behind a scripted manager; they answer every capability they are asked"}
 	w := &world{envs: map[string][]byte{}, root: filepath.Join(hx.Scratch(), "c03")}
 	defer os.RemoveAll(w.root)
 	w.chain3 = pki.NewChain(pki.ChainOpts{Len: 3, Prefix: "signer"})
@@ -476,6 +663,9 @@ func main() {
 		for s := 0; s < 2; s++ {
 			for f := 0; f < 2; f++ {
 				w.envs[fmt.Sprintf("%d/%d/%d", shape, s, f)] = forge.Build(forge.Spec{Format: forge.Formats[f], Chain: ch.X509(), Key: ch.Leaf().Key, Payload: forge.PayloadFor(w.desc), Scheme: []string{forge.SchemeX509, forge.SchemeSA}[s], SigningTime: time.Now().Add(-time.Hour)})
+				// the same signature naming verification plugin "p"
+				w.envs[fmt.Sprintf("%d/%d/%d/plugin", shape, s, f)] = forge.Build(forge.Spec{Format: forge.Formats[f], Chain: ch.X509(), Key: ch.Leaf().Key, Payload: forge.PayloadFor(w.desc), Scheme: []string{forge.SchemeX509, forge.SchemeSA}[s], SigningTime: time.Now().Add(-time.Hour),
+					Ext: []forge.Attr{{Key: forge.HdrPlugin, Critical: true, Value: "p"}}})
 			}
 		}
 	}
@@ -519,23 +709,9 @@ func main() {
 				kinds = []int{kRoot, kUnrelated, kLeaf, kEmptyDir}
 			}
 		}
-		var placements [][]int
-		var prec func(i int, cur []int, used int)
-		prec = func(i int, cur []int, used int) {
-			if i == len(storeRefs) {
-				placements = append(placements, append([]int(nil), cur...))
-				return
-			}
-			prec(i+1, append(cur, absent), used)
-			if used < maxStores {
-				for _, k := range kinds {
-					prec(i+1, append(cur, k), used+1)
-				}
-			}
-		}
-		prec(0, nil, 0)
+		placements := placementsOf(kinds, maxStores)
 		for _, pl := range placements {
-			w.configDir(pl, shape) // materialise sequentially
+			w.configDir(pl, shape, 0) // materialise sequentially
 			for _, l := range lists {
 				for s := 0; s < 2; s++ {
 					for f := 0; f < 2; f++ {
@@ -559,6 +735,80 @@ func main() {
 		r.Extra[fmt.Sprintf("placements_shape%d", shape)] = len(placements)
 	}
 	r.Extra["lists"] = len(lists)
+	// ---- near-miss store names ----
+	{
+		maxL, formats := 1, 1
+		if r.Thorough() {
+			maxL, formats = 2, 2
+		}
+		pls := placementsOf([]int{kRoot, kUnrelated, kEmptyDir}, 2)
+		n0 := len(cases)
+		pairs := 0
+		for ni := 1; ni < len(namePairs); ni++ {
+			np := namePairs[ni]
+			probe := filepath.Join(w.root, fmt.Sprintf("probe-%d", ni))
+			if err := os.MkdirAll(filepath.Join(probe, np.A), 0o755); err != nil {
+				r.Infra("probe: %v", err)
+				continue
+			}
+			if _, err := os.Stat(filepath.Join(probe, np.B)); err == nil || np.A == np.B {
+				r.Outcome("recorded:scratch-file-system-folds-names:" + np.Label)
+				continue
+			}
+			pairs++
+			for _, pl := range pls {
+				w.configDir(pl, 0, ni)
+				for _, l := range lists {
+					if len(l) > maxL {
+						continue
+					}
+					for s := 0; s < 2; s++ {
+						for f := 0; f < formats; f++ {
+							cases = append(cases, caseT{Placement: pl, List: l, Scheme: s, Format: f, Names: ni})
+						}
+					}
+				}
+			}
+		}
+		r.Extra["near_miss_name_pairs"] = pairs
+		r.Extra["near_miss_name_cases"] = len(cases) - n0
+	}
+	// ---- options: authenticity action x verification plugin ----
+	{
+		maxS := 1
+		if r.Thorough() {
+			maxS = 2
+		}
+		n0 := len(cases)
+		for shape := 0; shape < 2; shape++ {
+			kinds := []int{kRoot, kInter, kUnrelated, kEmptyDir}
+			if shape == 1 {
+				kinds = []int{kRoot, kUnrelated, kLeaf, kEmptyDir}
+			}
+			for _, pl := range placementsOf(kinds, maxS) {
+				w.configDir(pl, shape, 0)
+				for _, l := range lists {
+					if len(l) > 1 {
+						continue
+					}
+					for level := 0; level < len(levelNames); level++ {
+						for plugin := 0; plugin < nPlugins; plugin++ {
+							if level == 0 && plugin == plNone {
+								continue // the plain cell is the main family
+							}
+							for s := 0; s < 2; s++ {
+								for f := 0; f < 2; f++ {
+									cases = append(cases, caseT{Placement: pl, List: l, Scheme: s, Format: f, Shape: shape, Level: level, Plugin: plugin})
+								}
+							}
+						}
+					}
+				}
+			}
+		}
+		r.Extra["option_cells"] = len(levelNames)*nPlugins - 1
+		r.Extra["option_cases"] = len(cases) - n0
+	}
 	r.Extra["cases"] = len(cases)
 	r.Parallel(len(cases), func(i int) {
 		w.run(r, cases[i])
@@ -568,5 +818,14 @@ func main() {
 	}, nil)
 	w.aliasFamily(r)
 	os.RemoveAll(w.root)
+	r.Extra["plugin_controls"] = pluginControls.Load()
+	r.Extra["plugin_controls_held"] = pluginControlsHeld.Load()
+	r.Extra["cases_in_which_the_plugin_was_executed"] = pluginExecuted.Load()
+	if pluginControls.Load() > 0 && pluginControlsHeld.Load() == 0 {
+		r.Infra("plugin dimension: none of the %d anchored signatures with an agreeing plugin verified - the cells cannot be judged", pluginControls.Load())
+	}
+	if pluginControls.Load() > 0 && pluginExecuted.Load() == 0 {
+		r.Infra("plugin dimension: the scripted plugin was never executed - the cells are vacuous")
+	}
 	r.Finish()
 }
